@@ -20,7 +20,7 @@ RULE = ("(a) system: 1-3 priority classes over 1-3 customer classes, FIFO/LIFO/S
         "in one class or candidates in >= 2 classes; distinct by digest.")
 ASSUMPTIONS = ["a customer whose priority changes while queueing joins the tail of its new class queue (S3)",
                "restarts of schedule-interrupted customers and slotted nodes are C12's subject"]
-WALL = {"quick": 50, "thorough": 540}
+WALL = {"quick": 150, "thorough": 540}
 
 ALLOWED = ["schedule", "capacity", "priorities", "prio_preempt", "batching", "cc_after", "cc_waiting", "discipline", "server_priority",
            "routing_objects", "process_routing", "self_loops", "zero_service", "inf", "reneging", "system_capacity"]
@@ -68,7 +68,7 @@ def subchecks(tier):
                      horizon=(5.0, 14.0), budget=600, load="heavy", excluded=common.KNOWN_EXCLUSIONS)
     return [
         system_subcheck("system", prof, lambda spec: [ServiceOrder(spec)], nontrivial, classes=classes, obs=True,
-                        n={"quick": 2400, "thorough": 40000}, rule="service starts vs priority/discipline oracle"),
-        SubCheck("disciplines", disc_execute, strategy=disc_case(), n={"quick": 4000, "thorough": 40000}, kind="unit",
+                        n={"quick": 7200, "thorough": 40000}, rule="service starts vs priority/discipline oracle"),
+        SubCheck("disciplines", disc_execute, strategy=disc_case(), n={"quick": 12000, "thorough": 40000}, kind="unit",
                  rule="FIFO head / LIFO tail / SIRO element at floor(u*n) for lists of 1-8 customers; non-trivial = list of >= 2", is_spec=False),
     ]
